@@ -10,33 +10,64 @@ import (
 	"verif/mc"
 )
 
+var c16MuxScripts = [][]MOp{
+	{opAddA, opAddB, opPcrA, {K: "data", PID: 0x100, Len: 10, AF: "raipcr"}, opDataB1, opRmA, opAddAuto, opTables, opDataAuto},
+	{{K: "add", PID: 0x200, ST: 0x0f}, {K: "pcr", PID: 0x200}, {K: "data", PID: 0x200, Len: 400}, {K: "add", PID: 0x201, ST: 0x06, Desc: "lang"}, {K: "data", PID: 0x201, Len: 30, Hdr: "ptsdts"}, opTables, {K: "rm", PID: 0x200}},
+}
+var c16MuxPeriods = []int{2, 40}
+
+type c16MuxOut struct {
+	bytes []byte
+	calls string
+}
+
+// c16RunMuxScripts drives two fresh Muxers with their scripts interleaved as order says.
+func c16RunMuxScripts(order []int, seed int64) []c16MuxOut {
+	hs := []*MuxH{NewMuxH(c16MuxPeriods[0]), NewMuxH(c16MuxPeriods[1])}
+	pos := []int{0, 0}
+	calls := []string{"", ""}
+	for _, k := range order {
+		op := c16MuxScripts[k][pos[k]]
+		pos[k]++
+		r := hs[k].Do(op, seed+int64(k))
+		calls[k] += fmt.Sprintf("%s n=%d err=%v;", op, r.N, r.Err)
+	}
+	return []c16MuxOut{{hs[0].W.Buf, calls[0]}, {hs[1].W.Buf, calls[1]}}
+}
+
+func init() {
+	Replayers["c16-merge"] = func(d map[string]any) error {
+		if what, _ := d["what"].(string); what != "muxers" {
+			return fmt.Errorf("replay of %q merges: run ./run.sh C16 quick (the order is in the replay file)", what)
+		}
+		var order, solo []int
+		if err := reJSON(d["order"], &order); err != nil {
+			return err
+		}
+		for k, s := range c16MuxScripts {
+			for range s {
+				solo = append(solo, k)
+			}
+		}
+		got, alone := c16RunMuxScripts(order, 0), c16RunMuxScripts(solo, 0)
+		for k := range got {
+			fmt.Printf("  muxer %d: %d bytes interleaved, %d bytes alone\n", k, len(got[k].bytes), len(alone[k].bytes))
+			if !bytes.Equal(got[k].bytes, alone[k].bytes) || got[k].calls != alone[k].calls {
+				return fmt.Errorf("%v", d["message"])
+			}
+		}
+		return nil
+	}
+}
+
 // c16CallMerges: independent instances driven from ONE goroutine with their calls interleaved in
 // every order-preserving way (the scheduler exploration bounds preemptions, which leaves out
 // schedules that alternate between the instances at every call). Each instance must produce what
 // it produces alone.
 func c16CallMerges(c *mc.Ctx) {
 	// --- two Muxers with different configurations ---------------------------------------
-	scripts := [][]MOp{
-		{opAddA, opAddB, opPcrA, {K: "data", PID: 0x100, Len: 10, AF: "raipcr"}, opDataB1, opRmA, opAddAuto, opTables, opDataAuto},
-		{{K: "add", PID: 0x200, ST: 0x0f}, {K: "pcr", PID: 0x200}, {K: "data", PID: 0x200, Len: 400}, {K: "add", PID: 0x201, ST: 0x06, Desc: "lang"}, {K: "data", PID: 0x201, Len: 30, Hdr: "ptsdts"}, opTables, {K: "rm", PID: 0x200}},
-	}
-	periods := []int{2, 40}
-	type muxOut struct {
-		bytes []byte
-		calls string
-	}
-	runScript := func(order []int) []muxOut {
-		hs := []*MuxH{NewMuxH(periods[0]), NewMuxH(periods[1])}
-		pos := []int{0, 0}
-		calls := []string{"", ""}
-		for _, k := range order {
-			op := scripts[k][pos[k]]
-			pos[k]++
-			r := hs[k].Do(op, c.Seed+int64(k))
-			calls[k] += fmt.Sprintf("%s n=%d err=%v;", op, r.N, r.Err)
-		}
-		return []muxOut{{hs[0].W.Buf, calls[0]}, {hs[1].W.Buf, calls[1]}}
-	}
+	scripts := c16MuxScripts
+	runScript := func(order []int) []c16MuxOut { return c16RunMuxScripts(order, c.Seed) }
 	var soloOrder []int
 	for k, s := range scripts {
 		for range s {
